@@ -1,4 +1,5 @@
 import PprofVerif.Lemmas.PruneLemmas
+import PprofVerif.Lemmas.PruneRepaired
 import Mathlib.Data.List.Forall2
 /-!
 # C11 — Frame-dropping rules remove only the frames they name
@@ -90,6 +91,31 @@ theorem prune_spec_frames_fails_B :
     frames (pruneWith witnessB dropB) (pruneSample witnessB dropB ⟨[1, 2], [7], [], [], []⟩) ≠
       pruneFrames (frameMatches witnessB dropB) (frames witnessB ⟨[1, 2], [7], [], [], []⟩) := by
   decide
+
+/-- What the one-line repair of the per-sample loop (`if !foundUser && prune[id] { continue }`,
+fixes/needs-golden-update/C11-prune-partial-first-user-location.patch, `Prune.scanRepaired`) buys:
+family A disappears — the rule then holds under the weaker hypothesis that only excludes family B
+(every leading location whose root-most line matches matches on all lines). -/
+theorem prune_repaired_spec_frames_partial (p : Profile) (hv : p.Valid) (drop : Rx) (keep : Option Rx)
+    (s : Sample) (hs : s ∈ p.samples) (hH : PruneHRepaired p (pruneName drop keep) s) :
+    frames (pruneRepaired p drop keep)
+        { s with locationIDs := (scanRepaired (classOf p (pruneName drop keep)) s.locationIDs.reverse false).reverse } =
+      pruneFrames (frameMatches p (pruneName drop keep)) (frames p s) :=
+  pruneRepaired_frames_eq_spec p (Filter.wf_of_valid hv) drop keep s hs hH
+
+/-- … and family A's witness satisfies that weaker hypothesis. -/
+theorem prune_repaired_covers_family_A :
+    PruneHRepaired witnessA (pruneName (fun n => n == [100, 109]) none) ⟨[1, 2], [7], [], [], []⟩ := by
+  unfold PruneHRepaired; decide
+
+/-- `simplifyFunc` leaves a name without `(` alone, apart from one leading `.`. -/
+theorem simplifyFunc_plain (name : Str) (h : (40 : UInt8) ∉ name) : simplifyFunc name = trimDot name := by
+  unfold simplifyFunc
+  apply cutAtParen_noParen
+  unfold trimDot
+  split
+  · intro hx; exact h (List.mem_cons_of_mem _ hx)
+  · exact h
 
 /- FULL STATEMENT (false of the code, see `pruneFrom_spec_fails`):
      theorem pruneFrom_spec (p) (q) (s) :
